@@ -361,6 +361,12 @@ func RunCase(seed uint64, idx int, p *Profile, o *Opts, st *Stats) (cr *CaseResu
 		for _, s := range d.UnregDuring() {
 			m.Obs[s].Registered = false
 		}
+		for _, r := range d.RegDuring() {
+			for len(m.Obs) <= r.Slot {
+				m.Obs = append(m.Obs, MObs{})
+			}
+			m.Obs[r.Slot] = MObs{Spec: r.Spec, Used: true, Registered: true, Epoch: m.Obs[r.Slot].Epoch + 1}
+		}
 		for _, s := range d.Exhausted() {
 			m.QueryClosed(s)
 		}
